@@ -60,6 +60,9 @@ impl<'a> RawBatch<'a> {
     #[verifier::external_body]
     pub fn put_ser<T>(&self, key: &[u8], value: &T) -> (r: Result<(), StoreError>)
         ensures r is Ok ==> was_put(self, key@, *value) { unimplemented!() }
+    // commit of a RAW batch: writes the store directly, without any keychain / token check (nothing else is specified)
+    #[verifier::external_body]
+    pub fn commit(self) -> (r: Result<(), StoreError>) { unimplemented!() }
 }
 // `self.db.borrow().as_ref().unwrap()`: the raw batch; panics once the batch has been committed (db taken)
 pub uninterp spec fn refcell_holds<'a>(c: &RefCell<Option<RawBatch<'a>>>) -> bool;
